@@ -448,6 +448,7 @@ func (fc *FnCtx) evalSel(e *Expr, env *Env) Val {
 			cur = fc.loadLoc(env.heap, fa.Loc)
 			cur.Typ = f.Type()
 			fc.assumeWF(cur, f.Type())
+			fc.assumeBorn(cur, f.Type(), env)
 		} else {
 			cur = fa // reference to embedded struct, typed *T
 		}
@@ -1303,6 +1304,38 @@ func (fc *FnCtx) assumeWF(v Val, t types.Type) {
 	if f == "true" {
 		return
 	}
+	if fc.wfSeen == nil {
+		fc.wfSeen = map[string]bool{}
+	}
+	if fc.wfSeen[f] {
+		return
+	}
+	fc.wfSeen[f] = true
+	fc.assume(f)
+}
+
+// assumeBorn: a reference read from memory by a contract expression existed when that memory state was current
+// (no heap holds a reference to an object that is allocated later).
+func (fc *FnCtx) assumeBorn(v Val, t types.Type, env *Env) {
+	now, ok := env.ghost["now"]
+	if !ok || v.Sort == "" || boundVarRe.MatchString(v.T) || boundVarRe.MatchString(now) {
+		return
+	}
+	var ref string
+	switch t.Underlying().(type) {
+	case *types.Pointer, *types.Map, *types.Chan:
+		if v.Sort != sInt {
+			return
+		}
+		ref = v.T
+	case *types.Slice:
+		ref = sx("s-obj", v.T)
+	case *types.Interface:
+		ref = sx("i-val", v.T)
+	default:
+		return
+	}
+	f := sx("<=", sx("born", ref), now)
 	if fc.wfSeen == nil {
 		fc.wfSeen = map[string]bool{}
 	}
